@@ -96,7 +96,7 @@ extern "C" fn on_trap(_sig: libc::c_int, _info: *mut libc::siginfo_t, ctx: *mut 
         IS_CHILD.store(true, Ordering::Relaxed);
         CHILD_K.store(step, Ordering::Relaxed);
         ARMED.store(false, Ordering::Relaxed);
-        unsafe { libc::alarm(5) };
+        unsafe { libc::alarm(3) };
         queue(S, INNER_SEQ.load(Ordering::Relaxed));
         let uc = ctx as *mut libc::ucontext_t;
         unsafe { (*uc).uc_mcontext.gregs[libc::REG_EFL as usize] &= !TF };
@@ -194,7 +194,7 @@ where
         if !IS_CHILD.load(Ordering::Relaxed) {
             // the boundary after the last instruction: the delivery arrives when the call has returned
             queue(S, inner_seq);
-            unsafe { libc::alarm(5) };
+            unsafe { libc::alarm(3) };
         }
     };
     match outer {
